@@ -12,11 +12,15 @@
 //!   the wrapper alone: update succeeds iff its token is the key's latest, create succeeds iff the
 //!   key is absent, commit tokens never repeat, one (size, time) per token in every answer.
 mod sut;
+#[path = "../../c08/src/conc.rs"]
+mod conc;
 use std::collections::{BTreeMap, BTreeSet, HashMap};
 use sut::*;
 use vh_common::serde_json::json;
 use vh_common::*;
 
+/// keys of the interleaving scenarios
+const CONC_KEYS: [&str; 3] = ["0", "1", "2"];
 const KEYS: [&str; 9] = ["0", "1", "2", "0/1", "0/2", "0/1/3", "1/0", "2/2/2", "3"];
 
 // ------------------------------------------------------------------------------------------
@@ -133,6 +137,31 @@ fn gen_case(rng: &mut Rng, big_ok: bool) -> Vec<String> {
             89..=93 => {
                 ntok += 1;
                 format!("listd {}", rng.pick(&["-", "0", "0/1", "2", "2/2"]))
+            }
+            94..=96 => {
+                // second instance B overwrites while A's cache is warm; A's next (conditional) read of the key
+                // finds a stale pointer and must retry *with* its preconditions; then A is re-opened
+                let wop = match rng.below(5) {
+                    0 => format!("via-b mput {k} {} {}", size(rng).min(60), rng.below(50)),
+                    1 => format!("via-b copy {k2} {k} ow"),
+                    2 => format!("via-b del {k}"),
+                    _ => format!("via-b put {k} ow {} {}", size(rng), rng.below(50)),
+                };
+                let k2 = if k2 == k { *keys.iter().find(|x| **x != k).unwrap_or(&k) } else { k2 };
+                ops.push(format!("get {k} head")); // make sure A's cache holds the key
+                ops.push(wop);
+                let cond = match rng.below(6) {
+                    0 => format!(" im=t{}", ntok.saturating_sub(1 + rng.below(3))),
+                    1 => format!(" inm=t{}", ntok.saturating_sub(1 + rng.below(3))),
+                    2 if k2 != k => format!(" ius={k2}:0"),
+                    3 if k2 != k => format!(" ims={k2}:0"),
+                    4 if k2 != k => format!(" im=t{} ims={k2}:-1", ntok.saturating_sub(1 + rng.below(2))),
+                    _ => String::new(),
+                };
+                let tail = match rng.below(4) { 0 => " head", 1 => " r=b:0:2", _ => "" };
+                ops.push(format!("get {k}{cond}{tail}"));
+                ntok += 2;
+                "reopen".to_string()
             }
             _ => "reopen".to_string(),
         };
@@ -256,9 +285,43 @@ async fn run_case(ops: &[String]) -> Result<CaseOut, String> {
     let mut legacy_keys: BTreeSet<String> = BTreeSet::new();
     let mut last_ms = 0i64;
     let (mut commits, mut reads) = (0, 0);
+    let mut tasks: Option<Vec<conc::TaskSpec>> = None;
+    // the reference as it was before a second instance wrote behind instance A's cache (until A re-opens)
+    let mut ref_before_b: Option<object_store::memory::InMemory> = None;
     for (i, op) in ops.iter().enumerate().skip(1) {
+        // `via-b <op>`: the op goes through a second, freshly opened wrapper instance B over the same
+        // backend; instance A keeps its (now possibly stale) metadata cache
+        let (via_b, op_full) = (op.starts_with("via-b "), op);
+        let op: &String = &op.strip_prefix("via-b ").map(|s| s.to_string()).unwrap_or_else(|| op.clone());
         let w: Vec<&str> = op.split(' ').collect();
+        if w[0] == "tasks" {
+            tasks = Some(conc::parse_tasks(op).ok_or_else(|| format!("bad tasks line: {op}"))?);
+            out.noref_from = out.noref_from.min(i);
+            out.wrapper.push("ok".into());
+            out.reference.push("ok".into());
+            continue;
+        }
+        if let ["schedule", ids] = w.as_slice() {
+            let ts = tasks.clone().ok_or("schedule without tasks")?;
+            let choices: Vec<usize> = if *ids == "-" { vec![] } else { ids.split(',').map(|s| s.parse().map_err(|_| "schedule id")).collect::<Result<_, _>>()? };
+            let all: Vec<String> = CONC_KEYS.iter().map(|s| s.to_string()).collect();
+            let o = conc::run(fl, wr.backend.clone(), &ts, &choices, &all).await;
+            for f in o.failures {
+                out.failures.push(Failure { key: f.key, what: f.what, expected: f.expected, observed: f.observed, at: i });
+            }
+            out.nontrivial = true;
+            wr.reopen();
+            out.noref_from = out.noref_from.min(i);
+            out.wrapper.push(o.line.clone());
+            out.reference.push(o.line);
+            continue;
+        }
+        let _ = op_full;
+        if via_b && ref_before_b.is_none() {
+            ref_before_b = Some(rf.backend.fork());
+        }
         if op == "reopen" {
+            ref_before_b = None;
             wr.reopen();
             out.wrapper.push("ok".into());
             out.reference.push("ok".into());
@@ -318,8 +381,30 @@ async fn run_case(ops: &[String]) -> Result<CaseOut, String> {
                 expect = Some(("cas-iff-latest", ok, format!("token {t} is{} the token of the latest commit of {k}", if ok { "" } else { " not" })));
             }
         }
-        let a = wr.exec(op).await.ok_or_else(|| format!("bad op: {op}"))?;
+        let a = if via_b {
+            let mut bstore = build_store(fl, wr.backend.clone());
+            std::mem::swap(&mut wr.store, &mut bstore);
+            let r = wr.exec(op).await;
+            std::mem::swap(&mut wr.store, &mut bstore);
+            out.hits.push("via-b".into());
+            r.ok_or_else(|| format!("bad op: {op}"))?
+        } else {
+            wr.exec(op).await.ok_or_else(|| format!("bad op: {op}"))?
+        };
         let b = rf.exec(op).await.ok_or_else(|| format!("bad op: {op}"))?;
+        if !via_b && let Some(old) = &ref_before_b {
+            // instance A may still answer from the document it has cached: outside the single-writer
+            // contract both the reference's answer now and its answer before B's write are accepted
+            let strip = |l: &str| l.split(' ').filter(|x| !x.starts_with("t=@")).collect::<Vec<_>>().join(" ");
+            if strip(&a.line) != strip(&b.line) {
+                let mut alt = Sut::over(Flavor::Plain, old.fork(), rf.toks.clone());
+                if let Some(o) = alt.exec(op).await && strip(&o.line) == strip(&a.line) {
+                    // accepted; token ordinals of the two transcripts may part from here on
+                    out.hits.push("via-b:answered-for-the-cached-commit".into());
+                    out.noref_from = out.noref_from.min(i);
+                }
+            }
+        }
         if is_mutating(op) {
             last_ms = chrono::Utc::now().timestamp_millis();
         }
@@ -402,7 +487,7 @@ async fn run_case(ops: &[String]) -> Result<CaseOut, String> {
         out.wrapper.push(a.line);
         out.reference.push(b.line);
     }
-    out.nontrivial = commits > 0 && reads > 0;
+    out.nontrivial = out.nontrivial || (commits > 0 && reads > 0);
     // wrapper vs reference
     // timestamps are ranked over the compared part only (after a state-diverging known shape the
     // two stores legitimately hold different objects)
@@ -455,7 +540,7 @@ fn eval(rt: &tokio::runtime::Runtime, ops: &[String], model: &mut Option<ModelPr
                 continue;
             }
             let ans = m.ask(op);
-            let (x, y) = ans.split_once(" || ").unwrap_or((ans.as_str(), ""));
+            let (x, y) = ans.split_once(" || ").unwrap_or((ans.as_str(), ans.as_str()));
             a.push(x.to_string());
             b.push(y.to_string());
         }
@@ -670,6 +755,145 @@ fn main() {
                 }
             }
         }
+    }
+    // ---- conditional reads ∥ writers: systematic enumeration of release orders (deterministic) ----
+    if args.replay.is_none() {
+        let thorough = args.thorough() || search;
+        let (bound, cap) = if thorough { (3usize, 4000usize) } else { (2usize, 120usize) };
+        let conds: Vec<&str> = if thorough {
+            vec!["im", "imx", "inm", "inmx", "ius", "iusm", "ims", "imsm", "im+ims", "inmx+ius", "im+inmx", "-"]
+        } else {
+            vec!["im", "inm", "ius", "ims", "im+ims"]
+        };
+        let variants: Vec<(&str, bool)> = vec![("", false), (" r=b:1:3", false), ("", true), (" r=s:2", false)];
+        let mut scenarios: Vec<(Vec<String>, Vec<conc::TaskSpec>)> = vec![];
+        let flavors: Vec<&str> = if thorough { vec!["reset m", "reset e 7", "reset e 1"] } else { vec!["reset m", "reset e 7"] };
+        let mut n = 0usize;
+        for fl in &flavors {
+            let setup = vec![fl.to_string(), "put 0 ow 9 1".to_string(), "put 1 ow 4 2".to_string()];
+            for cond in &conds {
+                use conc::TaskSpec::*;
+                let writers = vec![Put("0".into(), 4, 7), Mput("0".into(), vec![3, 2], 7), Copy("1".into(), "0".into()), Ren("1".into(), "0".into()), Del("0".into())];
+                for (wi, w) in writers.iter().enumerate() {
+                    let vs: Vec<usize> = if thorough { (0..variants.len()).collect() } else { vec![(n + wi) % variants.len()] };
+                    for vi in vs {
+                        let warms: Vec<bool> = if thorough { vec![false, true] } else { vec![(n + wi + vi) % 2 == 1] };
+                        for warm in warms {
+                            let (rng, head) = variants[vi];
+                            let range = rng.strip_prefix(" r=").map(|s| s.to_string());
+                            scenarios.push((setup.clone(), vec![Get("0".into(), cond.to_string(), range, head, warm), w.clone()]));
+                        }
+                    }
+                }
+                n += 1;
+            }
+        }
+        struct SchedRes {
+            ops: Vec<String>,
+            line: String,
+            model: Option<Vec<String>>,
+            setup_lines: Vec<String>,
+            failures: Vec<conc::ConcFailure>,
+        }
+        let nthreads = std::thread::available_parallelism().map(|n| n.get()).unwrap_or(4).min(16).min(scenarios.len().max(1));
+        let t0 = std::time::Instant::now();
+        let chunks: Vec<Vec<usize>> = (0..nthreads).map(|t| (t..scenarios.len()).step_by(nthreads).collect()).collect();
+        let outs: Vec<Vec<(usize, Vec<SchedRes>, bool)>> = std::thread::scope(|s| {
+            let hs: Vec<_> = chunks
+                .iter()
+                .map(|idxs| {
+                    let scenarios = &scenarios;
+                    let args = &args;
+                    s.spawn(move || {
+                        let rt = tokio::runtime::Builder::new_current_thread().enable_all().build().unwrap();
+                        let mut model = if search { None } else { ModelProc::from_args(args) };
+                        let mut res = vec![];
+                        for &si in idxs {
+                            let (setup, tasks) = &scenarios[si];
+                            let Some(fl) = parse_reset(&setup[0]) else { continue };
+                            // the base state, through an ordinary wrapper instance
+                            let mut su = Sut::new(fl);
+                            let mut setup_lines = vec!["ok".to_string()];
+                            let mut last = 0i64;
+                            for op in &setup[1..] {
+                                last = wait_past(last);
+                                match rt.block_on(su.exec(op)) {
+                                    Some(o) => setup_lines.push(o.line),
+                                    None => setup_lines.push("bad-op".into()),
+                                }
+                                last = last.max(chrono::Utc::now().timestamp_millis());
+                            }
+                            wait_past(last);
+                            let all: Vec<String> = CONC_KEYS.iter().map(|s| s.to_string()).collect();
+                            let mut v: Vec<SchedRes> = vec![];
+                            let (_, truncated) = conc::explore(&rt, fl, &su.backend, tasks, &all, bound, cap, |o| {
+                                let mut ops = setup.clone();
+                                ops.push(conc::tasks_line(tasks));
+                                ops.push(format!("schedule {}", o.chosen.iter().map(|c| c.to_string()).collect::<Vec<_>>().join(",")));
+                                let m = model.as_mut().map(|m| ops.iter().map(|op| m.ask(op)).collect::<Vec<_>>());
+                                v.push(SchedRes { ops, line: o.line.clone(), model: m, setup_lines: setup_lines.clone(), failures: o.failures.clone() });
+                            });
+                            res.push((si, v, truncated));
+                        }
+                        res
+                    })
+                })
+                .collect();
+            hs.into_iter().map(|h| h.join().expect("worker")).collect()
+        });
+        let mut all: Vec<(usize, Vec<SchedRes>, bool)> = outs.into_iter().flatten().collect();
+        all.sort_by_key(|x| x.0);
+        let (mut nsched, mut ntrunc, mut nretry) = (0u64, 0u64, 0u64);
+        for (si, v, truncated) in all {
+            if truncated {
+                ntrunc += 1;
+            }
+            for r in v {
+                nsched += 1;
+                rep.case(&r.ops.join("|"), true);
+                // a schedule in which the reader re-resolved the document (two metadata reads by the reader)
+                if r.line.matches("0:g:meta/0").count() >= 2 || (r.ops[r.ops.len() - 2].contains("warm") && r.line.contains("0:g:meta/0")) {
+                    nretry += 1;
+                }
+                if nsched % 400 == 1 && rep.samples.len() < 8 {
+                    rep.sample(json!({"case": format!("sched{si}"), "ops": r.ops, "wrapper": r.line}));
+                }
+                for f in &r.failures {
+                    if reported.insert(f.key.clone()) {
+                        rep.oracle_failure(&f.key, &f.what, &r.ops, &f.expected, &f.observed);
+                    } else {
+                        rep.hit(&format!("failure-again:{}", f.key));
+                    }
+                }
+                if let Some(m) = &r.model {
+                    rep.model_compared += 1;
+                    let first = |l: &String| l.split_once(" || ").map(|x| x.0.to_string()).unwrap_or_else(|| l.clone());
+                    let ml = rank_times(&m.iter().map(first).collect::<Vec<_>>());
+                    let sl = rank_times(&r.setup_lines);
+                    let nn = r.ops.len();
+                    let mut bad: Option<(String, String, String)> = None;
+                    for i in 0..sl.len().min(nn - 2) {
+                        if ml[i] != sl[i] {
+                            bad = Some((format!("wrapper model vs wrapper on `{}`", r.ops[i]), ml[i].clone(), sl[i].clone()));
+                            break;
+                        }
+                    }
+                    if bad.is_none() && ml[nn - 1] != r.line {
+                        bad = Some((format!("interleaving model vs wrapper on `{}`", r.ops[nn - 1]), ml[nn - 1].clone(), r.line.clone()));
+                    }
+                    if let Some((what, m, im)) = bad {
+                        rep.disagreement(&what, &r.ops, &m, &im);
+                    }
+                }
+            }
+        }
+        rep.hit_n("sched:schedules", nsched);
+        rep.hit_n("sched:reader-retried", nretry);
+        rep.notes.push(format!(
+            "interleavings: {nsched} complete schedules of conditional get/head/ranged get || writer over {} scenarios ({nretry} with a stale-pointer retry; pre-emption bound {bound}, cap {cap}/scenario, {ntrunc} truncated), {:.1}s",
+            scenarios.len(),
+            t0.elapsed().as_secs_f64()
+        ));
     }
     if args.replay.is_none() {
         let mt = tokio::runtime::Builder::new_multi_thread().worker_threads(4).enable_all().build().unwrap();
